@@ -72,7 +72,8 @@ func encodeReg(m map[string]string) string {
 }
 
 type c19Case struct {
-	Choices []int `json:"choices"`
+	Choices  []int  `json:"choices"`
+	Scenario string `json:"scenario,omitempty"`
 }
 
 // c19Harness builds the three-thread registry scenario; events receives the history.
@@ -128,6 +129,36 @@ func c19Harness(events *[]porcupine.Event) func() {
 	}
 }
 
+// aliasDialer dials another scheme through the registry (a dialer may itself use transport.DialURL).
+type aliasDialer struct{ to string }
+
+func (d aliasDialer) DialURL(u *transport.URL) (net.Conn, error) {
+	return transport.DialURL(&transport.URL{Scheme: d.to, Target: u.Target})
+}
+
+// c19AliasHarness: a dial through an alias while another thread re-registers the target scheme. The
+// dial must return, and with the dialer that was registered for the target scheme at some moment.
+func c19AliasHarness(result *string) func() {
+	return func() {
+		transport.VerifReset()
+		*result = ""
+		done := vs.NewChan[int](2)
+		transport.RegisterDialer("x", fakeDialer{"A"})
+		transport.RegisterDialer("alias", aliasDialer{"x"})
+		vs.GoNamed("dialler", true, func() {
+			_, err := transport.DialURL(&transport.URL{Scheme: "alias", Target: "N0CALL"})
+			*result = fmt.Sprint(err)
+			done.Send(1)
+		})
+		vs.GoNamed("registrar", true, func() {
+			transport.RegisterDialer("x", fakeDialer{"B"})
+			done.Send(1)
+		})
+		done.Recv()
+		done.Recv()
+	}
+}
+
 // C19Registry explores all interleavings of concurrent register / unregister / dial calls.
 func C19Registry(args []string) {
 	r := core.Begin("C19", "model_checking", args)
@@ -138,6 +169,12 @@ func C19Registry(args []string) {
 			Case c19Case `json:"case"`
 		}
 		readJSONFile(p, &f)
+		if f.Case.Scenario == "alias" {
+			var out string
+			res := vs.Run(vs.Config{Choices: f.Case.Choices}, c19AliasHarness(&out))
+			fmt.Printf("alias scenario: outcome %s result %q blocked %+v\n", res.Outcome, out, res.Blocked)
+			return
+		}
 		res := vs.Run(vs.Config{Choices: f.Case.Choices}, h)
 		fmt.Printf("outcome %s races %+v\nhistory %+v\nlinearizable=%v\n", res.Outcome, res.Races, events, porcupine.CheckEvents(regModel, events))
 		return
@@ -152,7 +189,7 @@ func C19Registry(args []string) {
 	}
 	e.Check = func(choices []int, res *vs.Result) {
 		r.Evals.Add(1)
-		c := c19Case{append([]int{}, choices...)}
+		c := c19Case{Choices: append([]int{}, choices...)}
 		switch {
 		case res.Outcome == "panic":
 			r.Violation("C19|registry|panic|"+res.Panic.Site, res.Panic.Value, c)
@@ -185,7 +222,27 @@ func C19Registry(args []string) {
 	if e.Capped {
 		r.Cap("registry exploration stopped by its time budget inside preemption bound %d after %d schedules (bound %d completed)", e.Bound, e.Execs, completed)
 	}
-	r.Nontrivial.Add(int64(e.Interleaved))
+	// second scenario: a dialer that dials through the registry itself
+	var aliasResult string
+	ea := &vs.Explorer{Harness: c19AliasHarness(&aliasResult), Mode: vs.Chess, Cfg: vs.Config{NoTimerFirst: true}, MaxExec: 200000}
+	ea.Check = func(choices []int, res *vs.Result) {
+		r.Evals.Add(1)
+		c := map[string]any{"scenario": "alias", "choices": append([]int{}, choices...)}
+		switch {
+		case res.Outcome == "panic":
+			r.Violation("C19|registry|panic|"+res.Panic.Site, res.Panic.Value, c)
+		case res.Outcome != "done":
+			r.Violation("C19|registry|dial-through-alias-"+res.Outcome, fmt.Sprintf("a dialer that dials another scheme through the registry never returns: %+v", res.Blocked), c)
+		case aliasResult != "dialed:A" && aliasResult != "dialed:B":
+			r.Violation("C19|registry|dial-result", "dial through the alias returned "+aliasResult, c)
+		}
+		for _, rc := range res.Races {
+			r.Violation("C19|registry|data-race|"+locName(rc.Loc), fmt.Sprintf("%s (%s) and %s (%s) are not ordered by happens-before", rc.A, rc.ASite, rc.B, rc.BSite), c)
+		}
+	}
+	ea.RunIterative(maxBound)
+	r.Add("registry_alias_schedules", int64(ea.Execs))
+	r.Nontrivial.Add(int64(e.Interleaved + ea.Interleaved))
 	r.Add("registry_schedules", int64(e.Execs))
 	r.Add("registry_states", int64(len(e.States)))
 	r.Add("registry_visible_steps", e.Steps)
